@@ -1521,6 +1521,9 @@ int32 parseServerHello(ssl_t *ssl, int32 hsLen, unsigned char **cp,
 {
     uint32 sessionIdLen, cipher = 0;
     int32 rc;
+# ifdef USE_STATELESS_SESSION_TICKETS
+    psBool_t sentSessionId = PS_FALSE;
+# endif
     unsigned char *extData;
     unsigned char *c;
 
@@ -1603,6 +1606,9 @@ int32 parseServerHello(ssl_t *ssl, int32 hsLen, unsigned char **cp,
     /*  If a session length was specified, the server has sent us a
         session Id.  We may have requested a specific session, and the
         server may or may not agree to use that session. */
+# ifdef USE_STATELESS_SESSION_TICKETS
+    sentSessionId = (ssl->sessionIdLen > 0) ? PS_TRUE : PS_FALSE;
+# endif
     if (sessionIdLen > 0)
     {
         if (ssl->sessionIdLen > 0)
@@ -1801,6 +1807,17 @@ int32 parseServerHello(ssl_t *ssl, int32 hsLen, unsigned char **cp,
 
 # ifdef USE_STATELESS_SESSION_TICKETS
     if (ssl->sid &&
+        ssl->sid->sessionTicketState == SESS_TICKET_STATE_SENT_TICKET &&
+        sentSessionId && !(ssl->flags & SSL_FLAGS_RESUMED))
+    {
+        /* We also sent a session id and the server did not echo it. RFC 5077
+           3.4: a server that accepts the ticket MUST answer with that same
+           id, so the ticket was not taken - and the master secret has been
+           cleared above: a ChangeCipherSpec in place of the Certificate must
+           not be read as "ticket accepted". */
+        ssl->sid->sessionTicketState = SESS_TICKET_STATE_INIT;
+    }
+    else if (ssl->sid &&
         ssl->sid->sessionTicketState == SESS_TICKET_STATE_SENT_TICKET)
     {
         /*
